@@ -29,6 +29,15 @@ def gen_convert(rng, tier):
         if rng.random() < 0.05:
             s = "".join(chr(rng.choice([rng.randrange(0x80, 0x800), rng.randrange(0x800, 0xd800), rng.randrange(0xe000, 0x10000), rng.randrange(0x10000, 0x110000)])) for _ in range(rng.randrange(1, 6)))
         out.append(hexs(s.encode("utf8")) + " " + ",".join(str(ord(c)) for c in s))
+    # long texts: a multi-byte character straddling every power-of-two byte offset a buffered / prefix-sniffing
+    # implementation might cut at (the theorems are for ALL lengths; sampled lengths above stop at 40 characters)
+    for B in (64, 128, 255, 256, 512, 1000, 1023, 1024, 1025, 2048, 4096, 8192, 16384, 65536):
+        for k in (1, 2, 3):
+            ch = rng.choice(CJK[:12] + ASTRAL)
+            s = "a" * (B - k) + ch + rand_text(rng, [ASCII, CJK], rng.choice([0, 3, 40]))
+            out.append(hexs(s.encode("utf8")) + " " + ",".join(str(ord(c)) for c in s))
+        s = rand_text(rng, [CJK], B // 3 + 2)
+        out.append(hexs(s.encode("utf8")) + " " + ",".join(str(ord(c)) for c in s))
     return out
 
 
